@@ -197,6 +197,20 @@ type auxSourceConf struct {
 	ErrorBackoff  string           `yaml:"error-backoff" json:"error-backoff"`
 }
 
+// compilePatterns compiles a list of regular expressions into a slice of its
+// own. An omitted or empty list yields nil, which is what propagate() takes
+// as "not set, inherit from the preceding source".
+func compilePatterns(exprs []string) (patterns []*regexp.Regexp, err error) {
+	for _, s := range exprs {
+		var p *regexp.Regexp
+		if p, err = regexp.Compile(s); err != nil {
+			return nil, err
+		}
+		patterns = append(patterns, p)
+	}
+	return
+}
+
 func (ss *SourceConf) applyAux(aux *auxSourceConf) (err error) {
 	ss.Name = aux.Name
 	ss.OutDir = aux.OutDir
@@ -239,16 +253,12 @@ func (ss *SourceConf) applyAux(aux *auxSourceConf) (err error) {
 		ss.IncludeHidden = false
 		ss.isIncludeHiddenSet = true
 	}
-	var patterns []*regexp.Regexp
-	for _, s := range append(aux.Include, aux.Ignore...) {
-		var p *regexp.Regexp
-		if p, err = regexp.Compile(s); err != nil {
-			return
-		}
-		patterns = append(patterns, p)
+	if ss.Include, err = compilePatterns(aux.Include); err != nil {
+		return
 	}
-	ss.Include = patterns[0:len(aux.Include)]
-	ss.Ignore = patterns[len(aux.Include):]
+	if ss.Ignore, err = compilePatterns(aux.Ignore); err != nil {
+		return
+	}
 	if aux.ErrorBackoff != "" {
 		ss.ErrorBackoff, err = strconv.ParseFloat(aux.ErrorBackoff, 64)
 		ss.isErrorBackoffSet = true
